@@ -266,6 +266,11 @@ class Oracles:
             toks = line.split()
             named = (int(toks[1]), int(toks[2])) if kind == "add_edge" else None  # a forced re-add deletes and re-creates it
             for u, w in g.edges:
+                # undo / redo of a group that deletes and re-creates an edge (forced re-add, node deletion with
+                # a bridge): the unregistered value does not survive delete + re-create (C10_frozen_iou exempts
+                # the edge a basic action adds / removes); it can only vanish that way, never change
+                if kind in ("undo", "redo") and "iou" not in g.edges[u, w]:
+                    continue
                 if (int(u), int(w)) != named and (int(u), int(w)) in before["rawe"] and not _eq(_plain(g.edges[u, w].get("iou")), before["rawe"][(int(u), int(w))]):
                     self.v("C10", "`%s` changed the disabled iou of edge (%d,%d)" % (line, u, w), line)
         if kind == "update_attrs_protected":
